@@ -82,42 +82,192 @@ HARNESSES = [
          encodes=["tinylfu_cached::cache::policy::admission_policy::AdmissionPolicy::{maybe_add,create_space,estimate}", "CacheWeight::{is_space_available_for,add,delete,sample}",
                   "FrequencyCounterBasedMinHeapSamples::{new,initial_sample,min_frequency_key,maybe_fill_in}", "TinyLFU::estimate", "FrequencyCounter::estimate", "DoorKeeper::has"]),
     # ---------------------------------------------------------------- whole CacheD: reads (C02)
-    dict(name="c02_all_read_variants_agree", file="cached.rs", props=["C02", "C09", "C16", "C15"], timeout=900,
-         encodes=["tinylfu_cached::cache::cached::CacheD::{get,get_ref,map_get,map_get_ref,multi_get,multi_get_iterator,multi_get_map_iterator,mark_key_accessed,is_shutting_down}",
-                  "MultiGetIterator::next", "MultiGetMapIterator::next", "Store::{get,get_ref}", "Pool::add"]),
-    dict(name="c02_multi_key_reads", file="cached.rs", props=["C02"], timeout=900,
+    dict(name="c02_read_get", file="cached.rs", props=["C02", "C09", "C16", "C15"], timeout=900,
+         encodes=["tinylfu_cached::cache::cached::CacheD::{get,mark_key_accessed,is_shutting_down}", "MultiGetIterator::next", "MultiGetMapIterator::next", "Store::{get,get_ref}", "Pool::add"]),
+    dict(name="c02_read_get_ref", file="cached.rs", props=["C02", "C09", "C16", "C15"], timeout=900,
+         encodes=["tinylfu_cached::cache::cached::CacheD::{get_ref,mark_key_accessed,is_shutting_down}", "MultiGetIterator::next", "MultiGetMapIterator::next", "Store::{get,get_ref}", "Pool::add"]),
+    dict(name="c02_read_map_get", file="cached.rs", props=["C02", "C09", "C16", "C15"], timeout=900,
+         encodes=["tinylfu_cached::cache::cached::CacheD::{map_get,mark_key_accessed,is_shutting_down}", "MultiGetIterator::next", "MultiGetMapIterator::next", "Store::{get,get_ref}", "Pool::add"]),
+    dict(name="c02_read_map_get_ref", file="cached.rs", props=["C02", "C09", "C16", "C15"], timeout=900,
+         encodes=["tinylfu_cached::cache::cached::CacheD::{map_get_ref,mark_key_accessed,is_shutting_down}", "MultiGetIterator::next", "MultiGetMapIterator::next", "Store::{get,get_ref}", "Pool::add"]),
+    dict(name="c02_read_multi_get", file="cached.rs", props=["C02", "C09", "C16", "C15"], timeout=900,
+         encodes=["tinylfu_cached::cache::cached::CacheD::{multi_get,mark_key_accessed,is_shutting_down}", "MultiGetIterator::next", "MultiGetMapIterator::next", "Store::{get,get_ref}", "Pool::add"]),
+    dict(name="c02_read_multi_get_iterator", file="cached.rs", props=["C02", "C09", "C16", "C15"], timeout=900,
+         encodes=["tinylfu_cached::cache::cached::CacheD::{multi_get_iterator,mark_key_accessed,is_shutting_down}", "MultiGetIterator::next", "MultiGetMapIterator::next", "Store::{get,get_ref}", "Pool::add"]),
+    dict(name="c02_read_multi_get_map_iterator", file="cached.rs", props=["C02", "C09", "C16", "C15"], timeout=900,
+         encodes=["tinylfu_cached::cache::cached::CacheD::{multi_get_map_iterator,mark_key_accessed,is_shutting_down}", "MultiGetIterator::next", "MultiGetMapIterator::next", "Store::{get,get_ref}", "Pool::add"]),
+    dict(name="c02_two_keys_multi_get", file="cached.rs", props=["C02"], timeout=900,
          encodes=["tinylfu_cached::cache::cached::CacheD::{multi_get,multi_get_iterator,multi_get_map_iterator}", "MultiGetIterator::next", "MultiGetMapIterator::next"]),
-    dict(name="c07_put_client_step", file="cached.rs", props=["C07", "C05", "C11", "C17"], timeout=900,
+    dict(name="c02_two_keys_iterator", file="cached.rs", props=["C02"], timeout=900,
+         encodes=["tinylfu_cached::cache::cached::CacheD::{multi_get,multi_get_iterator,multi_get_map_iterator}", "MultiGetIterator::next", "MultiGetMapIterator::next"]),
+    dict(name="c02_two_keys_map_iterator", file="cached.rs", props=["C02"], timeout=900,
+         encodes=["tinylfu_cached::cache::cached::CacheD::{multi_get,multi_get_iterator,multi_get_map_iterator}", "MultiGetIterator::next", "MultiGetMapIterator::next"]),
+    dict(name="c07_put_client_step_q0", group="c07_put_client_step", file="cached.rs", props=["C07", "C05", "C11", "C17"], timeout=900,
          encodes=["tinylfu_cached::cache::cached::CacheD::{put,put_with_weight,put_with_ttl,put_with_weight_and_ttl,key_description}", "Store::is_present", "CommandExecutor::send", "Calculation::perform", "CommandAcknowledgement::{new,rejected}"]),
-    dict(name="c04_delete_hides_then_releases", file="cached.rs", props=["C04", "C05", "C16", "C11", "C12"], timeout=900,
+    dict(name="c07_put_client_step_q1", group="c07_put_client_step", file="cached.rs", props=["C07", "C05", "C11", "C17"], timeout=900,
+         encodes=["tinylfu_cached::cache::cached::CacheD::{put,put_with_weight,put_with_ttl,put_with_weight_and_ttl,key_description}", "Store::is_present", "CommandExecutor::send", "Calculation::perform", "CommandAcknowledgement::{new,rejected}"]),
+    dict(name="c07_put_client_step_q2", group="c07_put_client_step", file="cached.rs", props=["C07", "C05", "C11", "C17"], timeout=900,
+         encodes=["tinylfu_cached::cache::cached::CacheD::{put,put_with_weight,put_with_ttl,put_with_weight_and_ttl,key_description}", "Store::is_present", "CommandExecutor::send", "Calculation::perform", "CommandAcknowledgement::{new,rejected}"]),
+    dict(name="c07_put_client_step_q3", group="c07_put_client_step", file="cached.rs", props=["C07", "C05", "C11", "C17"], timeout=900,
+         encodes=["tinylfu_cached::cache::cached::CacheD::{put,put_with_weight,put_with_ttl,put_with_weight_and_ttl,key_description}", "Store::is_present", "CommandExecutor::send", "Calculation::perform", "CommandAcknowledgement::{new,rejected}"]),
+    dict(name="c04_delete_hides_then_releases_q0", group="c04_delete_hides_then_releases", file="cached.rs", props=["C04", "C05", "C16", "C11", "C12"], timeout=900,
          encodes=["tinylfu_cached::cache::cached::CacheD::{delete,get,get_ref,put_with_weight,total_weight_used}", "Store::{mark_deleted,delete}", "CommandExecutor::{send,spin (worker closure),delete}", "AdmissionPolicy::delete", "CacheWeight::delete", "TTLTicker::delete", "CommandAcknowledgementHandle::{done,poll}"]),
-    dict(name="c08_put_or_update_step", file="cached.rs", props=["C08", "C10", "C05", "C17"], timeout=1500,
+    dict(name="c04_delete_hides_then_releases_q1", group="c04_delete_hides_then_releases", file="cached.rs", props=["C04", "C05", "C16", "C11", "C12"], timeout=900,
+         encodes=["tinylfu_cached::cache::cached::CacheD::{delete,get,get_ref,put_with_weight,total_weight_used}", "Store::{mark_deleted,delete}", "CommandExecutor::{send,spin (worker closure),delete}", "AdmissionPolicy::delete", "CacheWeight::delete", "TTLTicker::delete", "CommandAcknowledgementHandle::{done,poll}"]),
+    dict(name="c04_delete_hides_then_releases_q2", group="c04_delete_hides_then_releases", file="cached.rs", props=["C04", "C05", "C16", "C11", "C12"], timeout=900,
+         encodes=["tinylfu_cached::cache::cached::CacheD::{delete,get,get_ref,put_with_weight,total_weight_used}", "Store::{mark_deleted,delete}", "CommandExecutor::{send,spin (worker closure),delete}", "AdmissionPolicy::delete", "CacheWeight::delete", "TTLTicker::delete", "CommandAcknowledgementHandle::{done,poll}"]),
+    dict(name="c04_delete_hides_then_releases_q3", group="c04_delete_hides_then_releases", file="cached.rs", props=["C04", "C05", "C16", "C11", "C12"], timeout=900,
+         encodes=["tinylfu_cached::cache::cached::CacheD::{delete,get,get_ref,put_with_weight,total_weight_used}", "Store::{mark_deleted,delete}", "CommandExecutor::{send,spin (worker closure),delete}", "AdmissionPolicy::delete", "CacheWeight::delete", "TTLTicker::delete", "CommandAcknowledgementHandle::{done,poll}"]),
+    dict(name="c08_put_or_update_step_q0", group="c08_put_or_update_step", file="cached.rs", props=["C08", "C10", "C05", "C17"], timeout=1500,
          encodes=["tinylfu_cached::cache::cached::CacheD::{put_or_update,get,key_description}", "PutOrUpdateRequest::updated_weight", "Store::update", "StoredValue::update", "UpdateResponse::type_of_expiry_update", "TTLTicker::{put,update,delete}", "AdmissionPolicy::{weight_of,update}", "CacheWeight::update", "CommandExecutor::{send,spin (worker closure: UpdateWeight arm)}"]),
-    dict(name="c05_worker_put_step", file="cached.rs", props=["C05", "C03", "C01", "C16", "C10", "C11"], timeout=1800,
+    dict(name="c08_put_or_update_step_q1", group="c08_put_or_update_step", file="cached.rs", props=["C08", "C10", "C05", "C17"], timeout=1500,
+         encodes=["tinylfu_cached::cache::cached::CacheD::{put_or_update,get,key_description}", "PutOrUpdateRequest::updated_weight", "Store::update", "StoredValue::update", "UpdateResponse::type_of_expiry_update", "TTLTicker::{put,update,delete}", "AdmissionPolicy::{weight_of,update}", "CacheWeight::update", "CommandExecutor::{send,spin (worker closure: UpdateWeight arm)}"]),
+    dict(name="c08_put_or_update_step_q2", group="c08_put_or_update_step", file="cached.rs", props=["C08", "C10", "C05", "C17"], timeout=1500,
+         encodes=["tinylfu_cached::cache::cached::CacheD::{put_or_update,get,key_description}", "PutOrUpdateRequest::updated_weight", "Store::update", "StoredValue::update", "UpdateResponse::type_of_expiry_update", "TTLTicker::{put,update,delete}", "AdmissionPolicy::{weight_of,update}", "CacheWeight::update", "CommandExecutor::{send,spin (worker closure: UpdateWeight arm)}"]),
+    dict(name="c08_put_or_update_step_q3", group="c08_put_or_update_step", file="cached.rs", props=["C08", "C10", "C05", "C17"], timeout=1500,
+         encodes=["tinylfu_cached::cache::cached::CacheD::{put_or_update,get,key_description}", "PutOrUpdateRequest::updated_weight", "Store::update", "StoredValue::update", "UpdateResponse::type_of_expiry_update", "TTLTicker::{put,update,delete}", "AdmissionPolicy::{weight_of,update}", "CacheWeight::update", "CommandExecutor::{send,spin (worker closure: UpdateWeight arm)}"]),
+    dict(name="c05_worker_put_step_q0", group="c05_worker_put_step", file="cached.rs", props=["C05", "C03", "C01", "C16", "C10", "C11"], timeout=1800,
          encodes=["tinylfu_cached::cache::command::command_executor::CommandExecutor::{spin (worker closure: Put, PutWithTTL arms),put,put_with_ttl,send}", "AdmissionPolicy::{maybe_add,create_space}", "Store::{put,put_with_ttl,delete (as eviction hook)}", "TTLTicker::put", "CommandAcknowledgementHandle::done"]),
+    dict(name="c05_worker_put_step_q1", group="c05_worker_put_step", file="cached.rs", props=["C05", "C03", "C01", "C16", "C10", "C11"], timeout=1800,
+         encodes=["tinylfu_cached::cache::command::command_executor::CommandExecutor::{spin (worker closure: Put, PutWithTTL arms),put,put_with_ttl,send}", "AdmissionPolicy::{maybe_add,create_space}", "Store::{put,put_with_ttl,delete (as eviction hook)}", "TTLTicker::put", "CommandAcknowledgementHandle::done"]),
+    dict(name="c05_worker_put_step_q2", group="c05_worker_put_step", file="cached.rs", props=["C05", "C03", "C01", "C16", "C10", "C11"], timeout=1800,
+         encodes=["tinylfu_cached::cache::command::command_executor::CommandExecutor::{spin (worker closure: Put, PutWithTTL arms),put,put_with_ttl,send}", "AdmissionPolicy::{maybe_add,create_space}", "Store::{put,put_with_ttl,delete (as eviction hook)}", "TTLTicker::put", "CommandAcknowledgementHandle::done"]),
+    dict(name="c05_worker_put_step_q3", group="c05_worker_put_step", file="cached.rs", props=["C05", "C03", "C01", "C16", "C10", "C11"], timeout=1800,
+         encodes=["tinylfu_cached::cache::command::command_executor::CommandExecutor::{spin (worker closure: Put, PutWithTTL arms),put,put_with_ttl,send}", "AdmissionPolicy::{maybe_add,create_space}", "Store::{put,put_with_ttl,delete (as eviction hook)}", "TTLTicker::put", "CommandAcknowledgementHandle::done"]),
+    # ---------------------------------------------------------------- expiry index + sweeper (C10)
+    dict(name="c10_one_sweep_removes_exactly_the_expired", file="expiration.rs", props=["C10", "C03"], timeout=900,
+         encodes=["tinylfu_cached::cache::expiration::TTLTicker::{new,spin (sweeper closure),shard_index}", "hashbrown::HashMap::retain (model)"]),
+    dict(name="c13_sweeper_stops_after_shutdown", file="expiration.rs", props=["C13", "C10"], timeout=300,
+         encodes=["tinylfu_cached::cache::expiration::TTLTicker::{shutdown,clear,spin (sweeper closure)}"]),
+    dict(name="c10_index_tracks_current_expiry", file="expiration.rs", props=["C10", "C03"], timeout=900,
+         encodes=["tinylfu_cached::cache::expiration::TTLTicker::{put,update,delete,get,shard_index}"]),
+    # ---------------------------------------------------------------- access pipeline (C15)
+    dict(name="c15_pool_add_accounting_step", file="pool.rs", props=["C15", "C18"], timeout=600,
+         encodes=["tinylfu_cached::cache::pool::Pool::{new,add}", "Buffer::{new,add}", "AdmissionPolicy::accept (select! try-send)"]),
+    # ---------------------------------------------------------------- small kernels
+    dict(name="c05_ids_are_fresh", file="id_generator.rs", props=["C05", "C11"], timeout=120, encodes=["tinylfu_cached::cache::unique_id::increasing_id_generator::IncreasingIdGenerator::{new,next}"]),
+    dict(name="c17_default_weight_calculation", file="config.rs", props=["C17", "C08"], timeout=120, encodes=["tinylfu_cached::cache::config::weight_calculation::Calculation::{perform,ttl_ticker_entry_size}"]),
+    dict(name="c08_updated_weight_kernel", file="put_or_update.rs", props=["C08"], timeout=120, encodes=["tinylfu_cached::cache::put_or_update::PutOrUpdateRequest::updated_weight"]),
+    dict(name="c08_builder_builds_wellformed_requests", file="put_or_update.rs", props=["C08", "C17"], timeout=120, encodes=["tinylfu_cached::cache::put_or_update::PutOrUpdateRequestBuilder::{new,value,weight,time_to_live,remove_time_to_live,build}"]),
 ]
 
+COMMON_WORLD = ("CacheD-level harnesses: a CacheD built by struct literal from the real Store, AdmissionPolicy, TTLTicker (with the real evict hook), "
+                "CommandExecutor (real worker closure, stashed and run by the harness); pool of 3 keys (101..103) + one never-written key; quick tier: concrete occupancy shape "
+                "(key 101 held with TTL, 102 held without TTL, 103 absent) with symbolic value / weight (1..2^40) / expiry instant (<= 2^40 s, any ns) / soft-delete mark / limit (1..2^42) / clock; "
+                "thorough tier adds further shapes and symbolic occupancy; model map capacity 4, queue capacity <= 16, unwind 5..12 with unwinding assertions")
+
 PROPERTY_NOTES = {
+    "C01": dict(
+        bounds="CacheWeight step: limit 1..=i64::MAX, 2 resident ids (quick; arbitrary occupancy of 3 at thorough) with arbitrary positive weights, op in add/update/delete/clear with arbitrary weight; "
+               "admission: 1, 2 and 3 residents with arbitrary weights, arbitrary limit, arbitrary incoming weight (above the limit included), arbitrary frequency profile, and an arbitrary amount of weight IN FLIGHT "
+               "(total = sum of charged weights + g, g >= 0: the state in which another thread's delete has removed its map entry but not yet subtracted its weight); worker Put/PutWithTTL step on a whole CacheD. " + COMMON_WORLD,
+        outside="crossing interleavings of two multi-step operations beyond the in-flight pre-state; more than 3 resident keys; the total observed between two shared-memory operations of one step (only before/after each operation)",
+        explanation="inductive: every step that can change the total (add, update, delete, clear, maybe_add incl. eviction, worker put) from an arbitrary state with 0 <= total <= limit re-establishes 0 <= total <= limit; "
+                    "the one step that does not (UpdateWeight with an increase above the free space) is the recorded finding F1",
+        assumptions=["dashmap model: entry operations atomic; parking_lot model: mutual exclusion"]),
+    "C02": dict(
+        bounds="Store level: arbitrary entries (symbolic attributes) for 3 keys, any clock instant <= 2^40 s, queried key any of the pool or a never-written key, get / get_ref / is_present; every store write op from the same states; "
+               "CacheD level: each of the seven read entry points separately, identity-like and CONSTANT key-hash function, one and two requested keys (equal or different). " + COMMON_WORLD,
+        outside="a read overlapping a write of the same key at sub-operation granularity (needs crossing interleavings); DashMap's own linearizability (assumed: one look-up per read is asserted)",
+        explanation="differential against an abstract map key -> (value, id, expiry, soft-deleted): every read variant returns Some(v) iff the abstract entry is present, not soft-deleted and unexpired, v being exactly its value; "
+                    "every store write changes exactly the addressed entry as specified; reads perform exactly one look-up"),
+    "C03": dict(
+        bounds="frame conditions of every one-step harness (store writes, cache-weight ops, expiry-index ops, sweep, admission, worker put); no-pressure admission: free >= weight for arbitrary values; " + COMMON_WORLD,
+        outside="the induction over unbounded histories is the classical argument, not a solver result; access counting / sketch ageing touching the store (they have no reference to it: checked by the compiler, not the solver)",
+        explanation="three obligations from arbitrary states: (1) frame: a step on key k' / id i' leaves every other key's store entry, weight entry and expiry entry bit-identical; (2) maybe_add with free space >= weight evicts nothing; "
+                    "(3) the sweeper removes only entries whose expiry has passed (C10)"),
+    "C04": dict(
+        bounds="delete(k) for k in every life-cycle state (held with TTL: alive / expired / already soft-deleted; held without TTL; absent pool key; never written), immediate read by get or get_ref, then the real worker applies the queued Delete, then a re-put. " + COMMON_WORLD,
+        outside="a second client writing the same key concurrently with the delete; a reader holding a get_ref guard across the delete (DashMap guard semantics)",
+        explanation="(a) after delete returns, before the worker runs, both read paths return None and only the soft-delete mark changed; (b) after the worker step: Accepted iff held, entry/weight/expiry entry gone, total reduced by exactly the weight, others untouched, else Rejected(KeyDoesNotExist) and nothing changed; (c) re-put is not 'already exists'"),
+    "C05": dict(
+        bounds="CacheWeight one-step harness (see C01) with the total == sum identity; worker Put/PutWithTTL step on a whole CacheD with and without pressure; client put step; delete step; fresh ids. " + COMMON_WORLD,
+        outside="more than one command in flight for the same key except the recorded finding F3 (its region is excluded and reported as KNOWN-FINDING)",
+        explanation="inductive: each step re-establishes 'store and weight map in bijection by id, total == sum of charged weights'; the pre-state in which a Put for an already-held key is queued (two puts before the first is applied) is the recorded finding F3"),
+    "C06": dict(
+        bounds="comparator: all (id, weight, frequency) triples (full width); sampler: 3 residents with arbitrary weights and per-hash frequencies, sample sizes 1..=3 (refill exercised with size < residents) and 5; "
+               "maybe_add: 1, 2, 3 residents (concrete occupancy; symbolic at thorough), limit 1..=i64::MAX, arbitrary weights, incoming weight 1..=i64::MAX, estimates 0..=16 per key through the real TinyLFU/sketch/doorkeeper code (ties, saturation), weight in flight",
+        outside="more than 3 residents in the maybe_add harness (refill inside create_space needs > 5; refill itself is checked on the sampler with smaller sample sizes); tie-break among equal maxima of the victim heap follows VERIF_SEED parity (std leaves it unspecified)",
+        explanation="the TinyLFU admission rule written as an executable checker over the observed eviction sequence (victim = a minimum of the sample by (estimate asc, weight desc), evicted only while space is short and only if its estimate <= incoming estimate; accepted iff enough space results)",
+        assumptions=["BinaryHeap stand-in: pop returns a greatest element under the crate's own Ord for SampledKey"]),
+    "C07": dict(
+        bounds="all four put variants, key in every life-cycle state, arbitrary value / weight / TTL (<= 2^40 s). " + COMMON_WORLD,
+        outside="the worker side of admission (C06/C05)",
+        explanation="readable key => Ready(Rejected(KeyAlreadyExists)), nothing queued, state untouched; absent key => never that reason, exactly one Put/PutWithTTL with key, fresh id, hash, TTL-aware weight, value, TTL; expired-unswept key rejected as existing is the recorded finding F4"),
+    "C08": dict(
+        bounds="all 11 well-formed request shapes (value? weight? ttl? remove?) x key in every life-cycle state; explicit weights 1..2^40; the UpdateWeight command is then applied by the real worker; kernels: updated_weight for all 16 field combinations, StoredValue::update from arbitrary entries, the request builder. " + COMMON_WORLD,
+        outside="sequences of more than one upsert; implicit (recomputed) weights are compared with the code's own documented rule only",
+        explanation="differential against the abstract entry: value/expiry changed exactly as requested and visible on return, expiry index follows, explicit weight becomes the charged weight after the worker step, absent key => exactly the corresponding put command; findings F5 (dying entry updated in place) and F6 (remove-TTL on weight <= 24 panics) are excluded as regions and reported as KNOWN-FINDING"),
+    "C09": dict(
+        bounds="put instant, TTL and look instants: seconds 0..=2^40, any nanoseconds, full carry arithmetic; one TTL change (new / remove / keep, with or without value) from an ARBITRARY stored entry (any expiry, soft-deleted or not) followed by a look at any later instant; Store::get/get_ref at store level; all read variants at CacheD level",
+        outside="TTL near Duration::MAX (C17); clock before the epoch",
+        explanation="alive <=> not soft-deleted and now <= instant_of_last_ttl_write + ttl, checked with the oracle's own (secs, nanos) arithmetic; boundary instants now == expiry and now == expiry + 1ns are covered (cover witnesses)"),
+    "C10": dict(
+        bounds="one sweep by the REAL sweeper closure at any instant (<= 2^40 s) over an index of up to three entries with arbitrary expiries in 2 shards; put/update/delete/get with arbitrary old and new expiries (same shard and different shard); upsert TTL paths and worker TTL put / delete on a whole CacheD. " + COMMON_WORLD,
+        outside="wall-clock ticking of crossbeam's tick (assumed to deliver ticks); shard counts other than 2; a sweep interleaved inside put_or_update between the store update and the index update",
+        explanation="after a tick at t in shard s = t.secs mod shards: evicted (hook called once, entry dropped) <=> entry sits in shard s and t > expiry; all other entries untouched; arithmetic liveness lemma: expired and congruent second => swept by this tick; index operations keep each id in exactly the shard of its current expiry"),
+    "C11": dict(
+        bounds="client side: each write call that reaches the queue adds exactly one command and returns the acknowledgement of that command (put, delete, put_or_update steps); worker side: the real worker closure consumes one queued command, executes, acknowledges, parks; fresh ids",
+        outside="bursts of several unawaited commands and queue-full blocking (harness planned, not yet committed); FIFO-ness across producers is the channel's contract (model)",
+        explanation="per-step obligations: one call -> one queued command with the caller's acknowledgement; one worker iteration -> one dequeue, one execution, one done()"),
+    "C12": dict(
+        bounds="one completion with any final status (6 values), a pending poll before it, one more poll (same or different waker) placed by the solver at ANY shared-memory access of done() (flag, status lock, waker lock), two polls afterwards; reverse nesting: the whole done() placed at any shared access of poll(); pre-resolved acknowledgements",
+        outside="weak-memory reorderings of the Release/Acquire pair (CBMC is sequentially consistent); two polls crossing each other",
+        explanation="no poll yields Ready(Pending); every Ready carries the status passed to done(); the most recent poller that was told Pending is woken; after completion every poll yields the same status. The window between the flag store and the status write is the recorded finding F2"),
+    "C13": dict(
+        bounds="sweeper: terminates at its first tick after shutdown(), clear() empties the index (quick); worker/drain and API gate harnesses are planned",
+        outside="racing writers inside shutdown(); liveness of OS threads",
+        explanation="sweeper exit path after shutdown"),
     "C14": dict(
         bounds="kernels: all 2^16 contents of a 2-byte row x 4 positions; next_power_2: all counters in 1..=2^63 (full width); "
-               "stateful sketch harnesses: width 4 (2 bytes/row) with arbitrary contents, arbitrary 64-bit seeds and hashes; "
+               "stateful sketch harnesses: width 4 (2 bytes/row) with arbitrary contents, arbitrary 64-bit seeds and hashes; TinyLFU window step with ageing threshold 1..=6 and any count below it, doorkeeper with solver-chosen false positives; "
                "constructor: counters 1..=9; unwind per harness 5..11 with unwinding assertions",
         outside="sketch widths above 16 for the stateful harnesses; false-positive rate of the real bloom filter; allocation failure for huge counters",
         explanation="one-step inductive obligations over arbitrary sketch contents: increment raises the addressed estimate by one unless saturated and never lowers any other; "
                     "ageing halves every counter; TinyLFU resets exactly at the configured threshold",
-        assumptions=["rand model: seeds are arbitrary 64-bit values", "bloomfilter model: no false negatives, false positives arbitrary but stable until clear"],
-    ),
+        assumptions=["rand model: seeds are arbitrary 64-bit values", "bloomfilter model: no false negatives, false positives arbitrary but stable until clear"]),
+    "C15": dict(
+        bounds="one access record pushed from an arbitrary pipeline state: pool size 1..=2, buffer size 1..=2, arbitrary fill per buffer, access queue capacity 1..=2 with arbitrary occupancy (saturated consumer), consumer alive or gone; each CacheD read variant: hit adds exactly one record, miss none",
+        outside="'any number of reading threads' beyond the per-step identity plus the buffer lock's mutual exclusion (assumed); the consumer thread applying a batch (harness planned)",
+        explanation="counting identity preserved by every step: buffered + AccessAdded + AccessDropped grows by exactly one per hit; a full buffer is handed over whole to exactly one of added/dropped; no blocking queue operation and exactly one lock on the hit path"),
+    "C16": dict(
+        bounds="hit_ratio: hits, misses 0..=255 (CBMC's IEEE-754 model; larger ranges did not finish in 5 min); counters: arbitrary 64-bit values, each increment method; summary; weight statistics identity in the CacheWeight step (two's-complement add for decreases, full i64 range); hit/miss/keys counters in store and CacheD steps",
+        outside="hit_ratio for counters above 255 (the branch structure is range-independent; the float division is not re-verified above the bound)",
+        explanation="per-step: each counter method changes exactly its counter; weight_added - weight_removed tracks the total (mod 2^64); every lookup is exactly one hit or miss; ratio bracketed against exactly representable thresholds. misses == 0 => ratio 0 is the recorded finding F9"),
+    "C17": dict(
+        bounds="Kani's built-in checks (panic, overflow, bounds, unwrap) are on in every harness; C17's own list: sketch constructor counters 1..=9, next_power_2 full width, TinyLFU::new counters 1..=8, default weight calculation, request builder for all well-formed shapes, client put step with weights up to i64::MAX - see C01/C05/C08 for the arithmetic findings",
+        outside="allocation failure; panics inside client-supplied closures; TTL near Duration::MAX and weights near i64::MAX on the upsert path (boundary harness planned)",
+        explanation="a reachable panic in any harness is a failed check of that harness"),
+    "C18": dict(
+        bounds="lock-order / re-entrancy monitor active in the models (re-entrant acquisition is an assertion in every harness); acknowledgement done/poll under interference; hit path takes exactly one lock and no blocking operation",
+        outside="the cross-harness lock-order graph (planned); fairness; real lock implementations",
+        explanation="no re-entrant acquisition on any explored path; no lock held at a blocking queue operation on the hit path"),
 }
-
 GENERIC_NOTE = ("Trusted: Kani/CBMC/CaDiCaL; the verification models of dashmap, parking_lot, crossbeam-channel, hashbrown, bloomfilter, rand "
                 "(documented contracts, listed in evidence); rustc MIR -> goto translation; Key=Value=u64 instantiation; sequential consistency. "
                 "Bounded: holds for every value inside the stated bounds, says nothing outside them.")
 
-MANIFEST_TEXT = {
-    "C14": dict(
-        level="Bounded model checking of the real sketch code: packed-counter kernels over all byte values and positions, sizing over all counters 1..=2^63, "
-              "one-step inductive obligations (increment/estimate/reset/clear) from arbitrary sketch contents, seeds and hashes at width 4, constructor for counters 1..=9, "
-              "and the TinyLFU window/threshold logic with a solver-chosen doorkeeper. Universally quantified inputs are exactly what unit tests cannot sample.",
-        note=GENERIC_NOTE),
+MANIFEST_TEXT = {}
+_LEVEL = {
+    "C01": "Bounded model checking of every step that changes the total weight (CacheWeight add/update/delete/clear, maybe_add with eviction incl. weight in flight, worker put) from arbitrary states with symbolic limit and weights: 0 <= total <= limit is re-established; the UpdateWeight breach is a recorded finding.",
+    "C02": "Bounded differential check of every read entry point and every store write against an abstract map, from arbitrary entry attributes, clock instants and queried keys, incl. a constant key-hash function.",
+    "C03": "Bounded frame conditions of every step harness plus 'no eviction without pressure' and 'sweeper removes only expired entries'; the induction over histories is stated as an argument.",
+    "C04": "Bounded check of delete on a whole CacheD: immediate invisibility before the worker runs, complete release after the real worker applied the command, rejection for absent keys, re-put.",
+    "C05": "Bounded inductive check that store and weight map stay in bijection and total == sum of charged weights across CacheWeight ops, worker put (with eviction), delete and client steps; the double-put leak is a recorded finding.",
+    "C06": "Bounded check of the real maybe_add/create_space/sampler/estimate code against the TinyLFU admission rule as an executable checker over the observed eviction sequence, for all weights, limits and frequency profiles with up to 3 residents.",
+    "C07": "Bounded check of all four put variants against every key life-cycle state: rejection on the spot exactly for readable keys, exactly one well-formed queued command otherwise; expired-unswept rejection is a recorded finding.",
+    "C08": "Bounded differential check of put_or_update over all well-formed request shapes x key states, including the worker's application of the weight update; two recorded findings are excluded by region.",
+    "C09": "Bounded check of expiry arithmetic and the alive filter over all put instants, TTLs, TTL changes and look instants up to 2^40 s with nanosecond carry, at StoredValue, Store and CacheD level.",
+    "C10": "Bounded check of the real sweeper closure (one tick at any instant over arbitrary index contents) and of the expiry-index operations keeping each id in the shard of its current expiry.",
+    "C11": "Bounded per-step check: one write call -> one queued command carrying the caller's acknowledgement; one worker iteration -> one dequeue, execution, acknowledgement.",
+    "C12": "Bounded check of done()/poll() with one interfering poll (or done) placed by the solver at every shared-memory access of the other operation: never Ready(Pending), real status, wake-up of the last pending poller; the flag-before-status window is a recorded finding.",
+    "C13": "Bounded check of the sweeper's exit after shutdown and clear(); the remaining shutdown obligations are not yet covered (see DESIGN.md).",
+    "C14": "Bounded model checking of the real sketch code: packed-counter kernels over all byte values and positions, sizing over all counters 1..=2^63, one-step inductive obligations from arbitrary sketch contents, seeds and hashes at width 4, constructor for counters 1..=9, TinyLFU window/threshold logic with a solver-chosen doorkeeper.",
+    "C15": "Bounded check of the access-accounting identity for one record from arbitrary pool/buffer/queue states incl. saturated and stopped consumer, and that the hit path takes one lock and never blocks.",
+    "C16": "Bounded check of every statistics counter method, the weight-statistics identity, hit/miss accounting of reads, and the hit ratio (counters <= 255); the all-hit ratio 0 is a recorded finding.",
+    "C17": "Every harness fails on any reachable panic/overflow/out-of-bounds of the real code; the C17 list adds constructor and builder boundaries.",
+    "C18": "Re-entrant lock acquisition is an assertion in every harness (lock models); hit path: one lock, no blocking operation; acknowledgement under interference.",
 }
+for _p, _t in _LEVEL.items():
+    MANIFEST_TEXT[_p] = dict(level=_t + " Universally quantified inputs/states are exactly what the unit tests cannot sample; the verdict holds for every value inside the stated bounds only.", note=GENERIC_NOTE)
 NOT_APPLICABLE = {}
